@@ -47,6 +47,10 @@ def main():
             continue
         meta = json.load(open(os.path.join(os.path.dirname(patch), "meta.json")))
         prop = meta["property"]
+        if meta.get("status") == "obsolete" and not a.names:
+            print("%-14s obsolete on the repaired tree (see meta.json)" % name)
+            results[name] = {"property": prop, "obsolete": True}
+            continue
         targets = claimed if a.all else [prop]
         r = sh("git -C %s apply --whitespace=nowarn %s" % (REPO, patch))
         if r.returncode != 0:
